@@ -130,6 +130,31 @@ func productUnit(ai int, tier string) harness.Unit {
 	}}
 }
 
+// lengthProductUnit (thorough): the FULL product of key lengths and identity lengths on a few key
+// combinations (the product units pair them only pairwise).
+func lengthProductUnit(part, parts int) harness.Unit {
+	return harness.Unit{Name: fmt.Sprintf("length-product/part%d", part), Run: func(c *harness.Ctx) {
+		keys := sm2k.Alphabet()
+		combos := [][4]int{{5, 6, 7, 8}, {0, 11, 3, 9}, {9, 10, 1, 2}, {4, 5, 10, 11}}
+		n := 0
+		for ci, cb := range combos {
+			A, B := party{keys[cb[0]].D, keys[cb[0]].Pub}, party{keys[cb[1]].D, keys[cb[1]].Pub}
+			rA, rB := party{keys[cb[2]].D, keys[cb[2]].Pub}, party{keys[cb[3]].D, keys[cb[3]].Pub}
+			for _, kl := range append(append([]int{}, klens...), 2, 63, 65, 96, 4096) {
+				for _, la := range idLens {
+					for _, lb := range idLens {
+						n++
+						if n%parts != part {
+							continue
+						}
+						exchange(c, fmt.Sprintf("combo %d |idA|=%d |idB|=%d klen=%d", ci, la, lb, kl), kl, pu.Msg(1, la), pu.Msg(2, lb), A, B, rA, rB)
+					}
+				}
+			}
+		}
+	}}
+}
+
 // shortVUnit searches ephemerals for which the shared point V has a leading zero byte.
 func shortVUnit() harness.Unit {
 	return harness.Unit{Name: "shared-point-leading-zero", Run: func(c *harness.Ctx) {
@@ -220,12 +245,17 @@ var Prop = &harness.Prop{
 	Rule:        "products over the 12-key alphabet (boundary d, GM/T keys, coordinates with leading zero bytes) for long-term and ephemeral keys (pairwise-pruned index schedule), identity lengths {0,1,16,255,8191}, key lengths {1,15,16,17,31,32,33,48,64,1024}; the GM/T 0003.5 worked example; ephemerals found by search whose shared point has a leading zero byte; both roles run on the library and K, S1, S2 are compared between the sides and with the independent GM/T 0003.3 reference; off-curve / infinite peer ephemerals and V = infinity must give an error. Distinct/non-trivial = distinct case labels.",
 	Assumptions: []string{"refsm2 correct (its key-exchange reproduces the GM/T 0003.5 example: K, S1/SB, S2/SA)", "klen is in bytes as the library API defines it"},
 	Bounds: func(tier string) string {
-		return "all 12x12x12 (A,B,ephemeral-index) combinations in both tiers"
+		return "all 12x12x12 (A,B,ephemeral-index) combinations with key and identity lengths rotated pairwise" + map[bool]string{true: "; full product of 15 key lengths x 5 x 5 identity lengths on 4 key combinations", false: ""}[tier == "thorough"]
 	},
 	Units: func(tier string) []harness.Unit {
 		u := []harness.Unit{exampleUnit(), shortVUnit(), rejectUnit()}
 		for i := range sm2k.Alphabet() {
 			u = append(u, productUnit(i, tier))
+		}
+		if tier == "thorough" {
+			for p := 0; p < 16; p++ {
+				u = append(u, lengthProductUnit(p, 16))
+			}
 		}
 		return u
 	},
